@@ -78,8 +78,10 @@ func normObs(o *casefmt.Obs) string {
 	c.RaceTexts = nil
 	// the simulated execution (schedule, events, results) is what must repeat; *which* of several racing pairs
 	// ThreadSanitizer's bounded history still reports depends on how goroutines were mapped to OS threads
-	if len(c.Races) > 0 {
-		c.Races = []string{"race(s) reported"}
+	// (and whether it reports at all: its shadow memory keeps four accesses per word and evicts at random)
+	c.Races = nil
+	if c.ExitCode == 66 {
+		c.ExitCode = 0
 	}
 	b, _ := json.Marshal(&c)
 	return reAddr.ReplaceAllString(string(b), "0xADDR")
